@@ -90,6 +90,9 @@ class Executor:
     # -- main loop --------------------------------------------------------------
     def run(self):
         CTX.reset_run()
+        # a run is hermetic: whatever module-level state earlier runs of this worker left in
+        # the code under test is reset, so that one seed is one repeatable execution
+        seams.restore_module_state()
         set_pol = self.swarm.get("set_policy", "mixed")
         walk_pol = self.swarm.get("walk_policy", "shuffled")
         self.set_policy, self.walk_policy = set_pol, walk_pol
